@@ -50,6 +50,10 @@ def run (s : St) (toks : List String) : St × String :=
       let cfg : BNCfg Float := ⟨mo, eps, tr⟩
       ({ cfg := cfg, st := bnInit cfg c af }, "ok")
     | _, _, _, _, _ => (s, "bad-op")
+  -- what exists after construction
+  | ["attrs"] =>
+    let o := bnOwns s.cfg s.st
+    (s, s!"weight={showBool o.weight} bias={showBool o.bias} running_mean={showBool o.runningMean} running_var={showBool o.runningVar} nbt={s.st.nbt} params={o.params}")
   | ["setstats", rm, rv] =>
     match parseFloatList? rm, parseFloatList? rv with
     | some rm, some rv => ({ s with st := { s.st with rm := rm, rv := rv } }, "ok")
